@@ -358,7 +358,7 @@ var shapes = []struct {
 }{
 	{`P0`, 1}, {`P0P1`, 2}, {`P0P1P2`, 3}, {`P0/P1`, 2}, {`P0 P1`, 2}, {`P0&amp;P1`, 2}, {`P0:P1`, 2}, {`P0&colon;P1`, 2}, {`P0&#58;P1`, 2}, {`P0t:P1`, 2}, {`P0:`, 1}, {`P0:alert(1)`, 1}, {`P0&Tab;:x`, 1}, {`P0x`, 1}, {`P0, P1`, 2}, {`P0 1x, P1 2x`, 2},
 	{`{{if $.C1}}P0{{end}}P1`, 2}, {`{{if $.C1}}P0{{else}}x{{end}}P1`, 2}, {`{{range $.L0}}{{.E0}}{{end}}`, 0}, {`{{range $.L0}}{{.E0}}{{.E1}}{{end}}`, 0}, {`{{range $.L0}}{{.E0}}/{{end}}`, 0}, {`P0{{range $.L0}}{{.E0}}{{end}}`, 1},
-	{`{{with $.S0}}{{.}}{{end}}P1`, 2}, {`{{template "leaf" $.S0}}P1`, 2}, {`P0{{template "leaf" $.S1}}`, 2}, {`{{template "two" $}}`, 0}, {`{{template "leaf" $.S0}}{{template "leaf" $.S1}}`, 2}, {`{{template "leaf" $.S0}}/{{template "leaf" $.S1}}`, 2}, {`{{template "leaf" $.S0}}" title="x" data-x="/p/{{template "leaf" $.S1}}`, 2}, {`/q/{{template "leaf" $.S0}}"></a><a href="{{template "leaf" $.S1}}`, 2}, {`{{$.S0 | urlquery}}P1`, 2}, {`{{if $.C1}}{{else}}java{{end}}P0`, 1}, {`{{if $.C1}}/x/{{else}}P0{{end}}:alert(1)`, 1}, {`{{if $.C1}}P0{{else}}/x/{{end}}:alert(1)`, 1}, {`{{if $.C1}}{{else}}x{{end}}P0`, 1}, {`{{if $.C1}}/p/{{else}}{{if $.C0}}/p/{{else}}/p?q={{end}}{{end}}P0`, 1}, {`{{if $.C1}}P0{{else}}x{{end}}y:P1`, 2}, {`P0&#x3{{/* c */}}a;alert(1)`, 1}, {`P0&col{{if $.C1}}on;{{end}}x`, 1}, {`{{$.S0 | html}}P1`, 2}, {`{{print $.S0 $.S1}}`, 0},
+	{`{{with $.S0}}{{.}}{{end}}P1`, 2}, {`{{template "leaf" $.S0}}P1`, 2}, {`P0{{template "leaf" $.S1}}`, 2}, {`{{template "two" $}}`, 0}, {`{{template "leaf" $.S0}}{{template "leaf" $.S1}}`, 2}, {`{{template "leaf" $.S0}}/{{template "leaf" $.S1}}`, 2}, {`{{template "leaf" $.S0}}" title="x" data-x="/p/{{template "leaf" $.S1}}`, 2}, {`/q/{{template "leaf" $.S0}}"></a><a href="{{template "leaf" $.S1}}`, 2}, {`{{$.S0 | urlquery}}P1`, 2}, {`{{if $.C1}}{{else}}java{{end}}P0`, 1}, {`{{if $.C1}}/x/{{else}}P0{{end}}:alert(1)`, 1}, {`{{if $.C1}}P0{{else}}/x/{{end}}:alert(1)`, 1}, {`{{if $.C1}}{{else}}x{{end}}P0`, 1}, {`{{if $.C1}}/p/{{else}}{{if $.C0}}/p/{{else}}/p?q={{end}}{{end}}P0`, 1}, {`{{if $.C1}}P0{{else}}x{{end}}y:P1`, 2}, {`{{if $.C1}}y{{else}}P0t{{end}}:x`, 1}, {`{{if $.C1}}P0t{{else}}y{{end}}:x`, 1}, {`{{if $.C0}}{{if $.C1}}/a/{{else}}P0{{end}}{{else}}/b/{{end}}:x`, 1}, {`P0&#x3{{/* c */}}a;alert(1)`, 1}, {`P0&col{{if $.C1}}on;{{end}}x`, 1}, {`{{$.S0 | html}}P1`, 2}, {`{{print $.S0 $.S1}}`, 0},
 }
 
 const helpersW1 = `{{define "leaf"}}{{.}}{{end}}{{define "two"}}{{$.S0}}{{$.S1}}{{end}}`
@@ -415,7 +415,7 @@ func w1Data(d string, c1, c2 int, tailMarker bool) (gen.DataSpec, gen.DataSpec) 
 
 func run(c *core.Ctx) {
 	// W1
-	splitStrings := []string{"javascript", "javascript:alert(1)", "JaVaScRiPt:alert(1)", "java\tscript:x", " javascript:x", "//evil.example/x.js", "https://evil.example/x.js", "..", "../x", "x.css", "/ok.js"}
+	splitStrings := []string{"javascript", "javascrip", "javascript:alert(1)", "JaVaScRiPt:alert(1)", "java\tscript:x", " javascript:x", "//evil.example/x.js", "https://evil.example/x.js", "..", "../x", "x.css", "/ok.js"}
 	idx := 0
 	r1 := c.Rng("w1")
 	for _, t := range targets {
@@ -428,9 +428,18 @@ func run(c *core.Ctx) {
 					}
 					text := w1Template(t, q, pre, sh.tmpl)
 					c.Journal(util.JSON(map[string]string{"template": text}))
-					d := splitStrings[idx%len(splitStrings)]
+					// whole strings in the first part (the static text of the shape may complete them)
+					for wi, d := range []string{"javascript", "javascrip", "javascript:alert(1)", "JaVaScRiPt:x"} {
+						hs, is := w1Data(d, len(d), len(d), true)
+						hs.C[1], is.C[1] = wi%2 == 0, wi%2 == 0
+						checkOne(c, text, hs, is, false)
+						hs2, is2 := w1Data(d, len(d), len(d), true)
+						hs2.C[1], is2.C[1] = wi%2 == 1, wi%2 == 1
+						checkOne(c, text, hs2, is2, false)
+					}
 					nsplit := c.N(4, 12)
 					for n := 0; n < nsplit; n++ {
+						d := splitStrings[(idx*7+n*5)%len(splitStrings)]
 						c1 := r1.Intn(len(d) + 1)
 						c2 := c1 + r1.Intn(len(d)-c1+1)
 						if n == 0 {
@@ -449,6 +458,7 @@ func run(c *core.Ctx) {
 					}
 					if c.Thorough() && pre == "" && sh.parts >= 2 {
 						d := "javascript:x"
+						_ = d
 						for c1 := 0; c1 <= len(d); c1++ {
 							for c2 := c1; c2 <= len(d); c2++ {
 								hs, is := w1Data(d, c1, c2, true)
